@@ -192,11 +192,14 @@ Fixpoint split_cfg_go (taking : bool) (files : list string) (rest : list string)
   end.
 Definition split_cfg (argv : list string) : list string * list string := split_cfg_go false [] [] argv.
 
-(* set_defaults(file) for each named file, in order; a missing file raises after the earlier ones were applied *)
+(* set_defaults(file) for each named file, in order; a name without a registered extension (read_file ->
+   get_extension) or a missing file raises after the earlier ones were applied *)
+Definition suffixb (suf s : string) : bool := prefixb (srev suf) (srev s).
 Fixpoint apply_files (ftbl : list (string * kv)) (live : kv) (files : list string) : res unit * kv :=
   match files with
   | [] => (Ok tt, live)
   | fl :: r =>
+      if negb (suffixb ".json" fl) then (Err (Raise "RuntimeError"), live) else
       match find (fun p => String.eqb (fst p) fl) ftbl with
       | None => (Err (Raise "FileNotFoundError"), live)
       | Some (_, kvs) => apply_files ftbl (kv_set_all live kvs) r
